@@ -349,6 +349,12 @@ func runOrderFree(rr *RuleRun) {
 					return true
 				}
 			}
+			// (3) a flag raised on some iterations of a loop that can also exit early: after an early exit the
+			// flag says only which members happened to be visited first
+			if v, pos, why := orderSensitiveFlag(c, info, body, rs); v != "" {
+				rr.Violation(key+"/flag", pos, fmt.Sprintf("the loop ranges over a Go map, can leave early (break), and raises the flag %s on other iterations; %s: after an early exit the flag only tells which members were visited first, so the result depends on the iteration order", v, why))
+				return true
+			}
 			// (2) caller-supplied callbacks invoked once per iteration
 			params := map[types.Object]bool{}
 			if fd.Type != nil && fd.Type.Params != nil {
@@ -391,4 +397,136 @@ func allErrorExits(sigs []string) bool {
 		}
 	}
 	return true
+}
+
+// orderSensitiveFlag finds, for a range-over-map loop with an unlabelled break, a variable declared
+// outside the loop that is assigned on non-exiting iterations and read after the loop without the read
+// being conditioned on a variable the breaking path sets. Returns the variable's name, the position of
+// the offending read and an explanation ("" when there is none).
+func orderSensitiveFlag(c *Ctx, info *types.Info, body *ast.BlockStmt, rs *ast.RangeStmt) (string, token.Pos, string) {
+	// breaks of this loop and the variables their statement lists assign before them
+	breakVars := map[types.Object]bool{}
+	hasBreak := false
+	var scan func(list []ast.Stmt, inNested bool)
+	scan = func(list []ast.Stmt, inNested bool) {
+		for i, st := range list {
+			switch x := st.(type) {
+			case *ast.BranchStmt:
+				if x.Tok == token.BREAK && x.Label == nil && !inNested {
+					hasBreak = true
+					for _, prev := range list[:i] {
+						if as, ok := prev.(*ast.AssignStmt); ok {
+							for _, l := range as.Lhs {
+								if o := objOf(info, l); o != nil {
+									breakVars[o] = true
+								}
+							}
+						}
+					}
+				}
+			case *ast.IfStmt:
+				scan(x.Body.List, inNested)
+				if eb, ok := x.Else.(*ast.BlockStmt); ok {
+					scan(eb.List, inNested)
+				} else if ei, ok := x.Else.(*ast.IfStmt); ok {
+					scan([]ast.Stmt{ei}, inNested)
+				}
+			case *ast.BlockStmt:
+				scan(x.List, inNested)
+			case *ast.SwitchStmt:
+				// a break inside a switch leaves the switch, not the loop
+				for _, cl := range x.Body.List {
+					scan(cl.(*ast.CaseClause).Body, true)
+				}
+			case *ast.ForStmt:
+				scan(x.Body.List, true)
+			case *ast.RangeStmt:
+				scan(x.Body.List, true)
+			}
+		}
+	}
+	scan(rs.Body.List, false)
+	if !hasBreak {
+		return "", token.NoPos, ""
+	}
+	// flags: variables declared outside the loop, assigned inside it, not on a breaking path
+	flags := map[types.Object]bool{}
+	inspectNoLit(rs.Body, func(n ast.Node) bool {
+		as, ok := n.(*ast.AssignStmt)
+		if !ok || as.Tok == token.DEFINE {
+			return true
+		}
+		for _, l := range as.Lhs {
+			o, _ := objOf(info, l).(*types.Var)
+			if o == nil || breakVars[o] || (o.Pos() >= rs.Pos() && o.Pos() <= rs.End()) {
+				continue
+			}
+			if b, ok := o.Type().Underlying().(*types.Basic); ok && b.Kind() == types.Bool {
+				flags[o] = true
+			}
+		}
+		return true
+	})
+	if len(flags) == 0 {
+		return "", token.NoPos, ""
+	}
+	mentionsBreakVar := func(e ast.Expr) bool {
+		found := false
+		ast.Inspect(e, func(n ast.Node) bool {
+			if id, ok := n.(*ast.Ident); ok && breakVars[info.Uses[id]] {
+				found = true
+			}
+			return !found
+		})
+		return found
+	}
+	cf := c.CondFacts(body, info, nil)
+	var badName, why string
+	var badPos token.Pos
+	inspectNoLit(body, func(n ast.Node) bool {
+		id, ok := n.(*ast.Ident)
+		if !ok || badName != "" || id.Pos() <= rs.End() || !flags[info.Uses[id]] {
+			return true
+		}
+		// a read (not an assignment target)
+		if as, ok := c.Parent(id).(*ast.AssignStmt); ok {
+			for _, l := range as.Lhs {
+				if l == ast.Expr(id) {
+					return true
+				}
+			}
+		}
+		// conditioned on a break variable: conjoined with it, nested under a condition on it, or reached
+		// only after a condition on it was decided
+		var child ast.Node = id
+		for p := c.Parent(id); p != nil && p != ast.Node(body); child, p = p, c.Parent(p) {
+			switch x := p.(type) {
+			case *ast.BinaryExpr:
+				if x.Op == token.LAND || x.Op == token.LOR {
+					other := x.X
+					if ast.Node(x.X) == child {
+						other = x.Y
+					}
+					if mentionsBreakVar(other) {
+						return true
+					}
+				}
+			case *ast.IfStmt:
+				if child != ast.Node(x.Cond) && mentionsBreakVar(x.Cond) {
+					return true
+				}
+			}
+		}
+		if cf.HoldsAt(id, func(cond ast.Expr, truth bool) bool { return mentionsBreakVar(cond) }) {
+			return true
+		}
+		if len(breakVars) == 0 {
+			why = "it is read after the loop although nothing records whether the loop ran to completion"
+		} else {
+			why = "it is read after the loop without consulting what the breaking path recorded"
+		}
+		badName, badPos = id.Name, id.Pos()
+		return true
+	})
+	return badName, badPos, why
 }
